@@ -294,7 +294,9 @@ def run(ctx) -> Report:
 
     for degs in ((2, 5, 3), (5, 2), (1,), (0, 0, 4, 1)):
         ip = stub_interp(lambda e: e.attrs["degree"])
-        itgs = [integral_obj(f"I{k}", d, {"quadrature_rule": "default"} if k == 0 else {}) for k, d in enumerate(degs)]
+        # the first integral carries other metadata, the last one a stale estimate left by an earlier preprocessing of another integrand
+        md_of = lambda k: {"quadrature_rule": "default"} if k == 0 else ({"estimated_polynomial_degree": 0, "quadrature_rule": "vertex"} if k == len(degs) - 1 and k > 0 else {})  # noqa: E731
+        itgs = [integral_obj(f"I{k}", d, md_of(k)) for k, d in enumerate(degs)]
         form = Obj("form", __class__=FormK, integrals=lambda itgs=itgs: list(itgs))
         try:
             total = ip.call_function(etd, [form], {})
@@ -307,9 +309,9 @@ def run(ctx) -> Report:
                 rep.violation("C18-attach", etd, f"estimate_total_polynomial_degree(integral), {degs}", f"the estimate of a single integral with integrand estimate {degs[-1]} is {one}")
             out = ip.call_function(afd, [form], {})
             got = [(i.attrs["_name"], i.attrs["_md"].get("estimated_polynomial_degree"), {k: v for k, v in i.attrs["_md"].items() if k != "estimated_polynomial_degree"}) for i in out.attrs["_integrals"]]
-            want = [(f"I{k}", d, {"quadrature_rule": "default"} if k == 0 else {}) for k, d in enumerate(degs)]
+            want = [(f"I{k}", d, {kk: vv for kk, vv in md_of(k).items() if kk != "estimated_polynomial_degree"}) for k, d in enumerate(degs)]
             if got == want:
-                rep.ok("C18-attach", afd, f"each of {len(degs)} integrals gets the estimate of its own integrand {degs}; other metadata kept")
+                rep.ok("C18-attach", afd, f"each of {len(degs)} integrals gets the estimate of its own integrand {degs} (a stale estimate in the metadata is replaced); other metadata kept")
             else:
                 rep.violation("C18-attach", afd, f"attach_estimated_degrees, integrands {degs}", f"integrals with integrand estimates {degs} come out as (name, estimated_polynomial_degree, other metadata) = {got}")
         except LiftRaise as ex:
